@@ -87,6 +87,7 @@ pub fn gen(rng: &mut Rng, tier: Tier, idx: u64) -> Case {
         rl_width: 0,
         plen_width: 0,
         stray_will_retain: rng.chance(1, 8),
+        pvar_width: 0,
     };
     // a legal but unusual variant: the same Subscription Identifier twice in PUBLISH etc. is
     // produced by the dedicated generator below
